@@ -7,7 +7,7 @@ From Coq Require Import ZArith.
 Require Import Model.Bytes Model.Bank Model.Hashes Model.Valset Model.L1 Model.Genesis1.
 Require Model.L2 Model.Genesis2.
 Require Import Proofs.Genesis1Lemmas Proofs.Genesis1Proofs Proofs.Genesis1Inv Proofs.Genesis1Behave.
-Require Proofs.Genesis2Proofs Proofs.Genesis2Inv.
+Require Proofs.Genesis2Proofs Proofs.Genesis2Inv Proofs.Genesis2Reach.
 
 (* The invariant [l1_inv] (everything is recorded under an existing bridge id below the next
    bridge id, counters are at least 1, configs are valid, hashes have 32 bytes, denoms are
@@ -76,14 +76,29 @@ Theorem C16_l2_initial_updates : ∀ (c : L2.cfg) (s : L2.l2state), Genesis2.l2_
                  ups (sorted_ops (last (L2.vs s))).
 Proof. exact Genesis2Proofs.c16_l2_initial_updates. Qed.
 
-(* [l2_inv] holds on a freshly started chain and is preserved by every history of opchild
-   messages (including messages wrapped in ExecuteMessages).  PARTIAL: preservation by the
-   EndBlocker (the update loop purging zero-power validators; an executor-change plan that
-   reuses an operator address leaves a stale index entry - known finding D8 of C14) is not
-   proved here; it is exercised by the correspondence stream C16L2 at every block boundary. *)
-Theorem C16_l2_invariant_messages_partial : ∀ (c : L2.cfg) (s : L2.l2state) (h : list L2.msg),
-  Genesis2.l2_inv c s → Genesis2.l2_inv c (L2.run c s h).1.
-Proof. intros c s h H. by apply Genesis2Inv.run_inv2. Qed.
+(* [l2_inv] holds in EVERY state reachable from a freshly started chain by any interleaving of
+   opchild messages (incl. nested ExecuteMessages; failing messages have no effect) and block
+   ends - the EndBlocker without a plan, or with an executor-change plan whose operator address
+   and consensus key are not in use (C14's freshness premise, part of [l2_reach]; a failing
+   EndBlocker - e.g. a plan at the validator cap, finding D10 - halts the chain and has no
+   successor state; plans reusing an operator or a key are the open findings D8 / D9 and are
+   NOT covered).  Both block-boundary and mid-block states are reachable states. *)
+Theorem C16_l2_invariant_reachable : ∀ (c : L2.cfg) (s0 s : L2.l2state),
+  L2.params_valid c (L2.prm s0) = true → L2.vs s0 = vempty → L2.info s0 = None →
+  (1 ≤ L2.next_l1 s0)%N → (1 ≤ L2.next_l2 s0)%N →
+  (∀ d v, L2.pairs s0 !! d = Some v → valid_denom d = true) →
+  Genesis2.l2_reach c s0 s → Genesis2.l2_inv c s.
+Proof. exact Genesis2Reach.c16_l2_reachable. Qed.
+
+(* Hence the round trip holds in every reachable state. *)
+Theorem C16_l2_reachable_roundtrip : ∀ (c : L2.cfg) (s0 s : L2.l2state),
+  L2.params_valid c (L2.prm s0) = true → L2.vs s0 = vempty → L2.info s0 = None →
+  (1 ≤ L2.next_l1 s0)%N → (1 ≤ L2.next_l2 s0)%N →
+  (∀ d v, L2.pairs s0 !! d = Some v → valid_denom d = true) →
+  Genesis2.l2_reach c s0 s →
+  Genesis2.validate2 c (Genesis2.export2 s) = true ∧
+  ∃ ups, Genesis2.import2 c s (Genesis2.export2 s) = Some (s, ups).
+Proof. exact Genesis2Reach.c16_l2_reachable_roundtrip. Qed.
 
 Theorem C16_l2_invariant_fresh : ∀ (c : L2.cfg) (s : L2.l2state),
   L2.params_valid c (L2.prm s) = true → L2.vs s = vempty → L2.info s = None →
@@ -98,5 +113,6 @@ Print Assumptions C16_l1_same_behaviour.
 Print Assumptions C16_l1_nonvacuous.
 Print Assumptions C16_l2_roundtrip.
 Print Assumptions C16_l2_initial_updates.
-Print Assumptions C16_l2_invariant_messages_partial.
+Print Assumptions C16_l2_invariant_reachable.
+Print Assumptions C16_l2_reachable_roundtrip.
 Print Assumptions C16_l2_invariant_fresh.
